@@ -205,6 +205,7 @@ func ruleACCParse(c *Ctx) {
 			}
 			want := newTLin()
 			want.Const.SetInt64(1)
+			data = flattenSlice(data)
 			if data != nil && data.K == "slice" {
 				want = want.add(linOf(data.Args[2], nil), 1).add(linOf(data.Args[1], nil), -1)
 				// the length prefix lies between the opcode byte and the data: lo - (pos+1)
@@ -223,3 +224,22 @@ func ruleACCParse(c *Ctx) {
 }
 
 func constantOf(x *big.Int) constant.Value { return constant.Make(x) }
+
+// flattenSlice rewrites x[a:b][c:d] as x[a+c:a+d], so that a datum cut out of a re-sliced
+// remainder is located in the script itself.
+func flattenSlice(t *T) *T {
+	for t != nil && t.K == "slice" && len(t.Args) == 3 && t.Args[0].K == "slice" && len(t.Args[0].Args) == 3 {
+		in := t.Args[0]
+		add := func(a, b *T) *T {
+			if a.K == "const" && a.C != nil && constant.Sign(a.C) == 0 {
+				return b
+			}
+			if b.K == "const" && b.C != nil && constant.Sign(b.C) == 0 {
+				return a
+			}
+			return &T{K: "bin", Op: token.ADD, Args: []*T{a, b}, Typ: a.Typ}
+		}
+		t = &T{K: "slice", Args: []*T{in.Args[0], add(in.Args[1], t.Args[1]), add(in.Args[1], t.Args[2])}, Typ: t.Typ}
+	}
+	return t
+}
